@@ -530,3 +530,257 @@ class RdLen(Stream):
 
 
 STREAMS.update({"scripts": Scripts(), "misuse": Misuse(), "decode": Decode(), "randacc": RandAcc(), "rdlen": RdLen()})
+
+
+# ------------------------------------------------------------------------------- name text
+class NameText(Stream):
+    """one notion of a valid name; text <-> wire round trip (C05)"""
+    name = "nametext"
+    rule = ("strings from a grammar (valid names; totals 250..257; labels of 62..65; every byte-class boundary at first/middle/last "
+            "position; '', '.', '..', leading/trailing/double dots, '-' and '_' shapes; non-ASCII UTF-8; random) with and without the "
+            "trailing dot -> Name::from_str, InlineName::from_str, TryFrom<&str>, and the hooked wire encoder into guard-paged buffers "
+            "of capacity needed+{-2..+1}, 0, 1, 300, whose output is decoded again; plus every name accepted by the decoder in a "
+            "names-stream batch is re-parsed from its text. Non-trivial: the string has at least one label. Distinct by (op, string, cap).")
+
+    def generate(self, rng, tier, pid):
+        n = 4000 if tier == "quick" else 150000
+        out = []
+        self.tags = {}
+        for i in range(n):
+            s, tag = G.gen_text(rng)
+            self.tags[tag] = self.tags.get(tag, 0) + 1
+            out.append("x%d text %s" % (i, G.hx(s)))
+            need = len(s) + (1 if s.endswith(b".") else 2)
+            cap = rng.choice([need, need, need - 1, need - 2, need + 1, 300, 300, 0, 1])
+            out.append("w%d wname %s %d" % (i, G.hx(s), max(0, cap)))
+        # decoded names must be valid text names
+        ncases, _ = G.gen_names(rng, 1500 if tier == "quick" else 40000)
+        self._decode_batch = ["d" + c for c in ncases]
+        return out + self._decode_batch
+
+    def run(self, cases, pid, tier):
+        r = super().run(cases, pid, tier)
+        # phase 2: re-parse every decoded name
+        impl = C.run_impl([c for c in cases if " name " in c])
+        extra = []
+        seen = set()
+        for cid, v in impl.items():
+            d = parse_kv(v)
+            for k in ("RH", "RI"):
+                m = re.match(r"ok:([0-9a-f-]+):", d.get(k, ""))
+                if m and m.group(1) not in seen:
+                    seen.add(m.group(1))
+                    extra.append("p%d text %s" % (len(extra), m.group(1)))
+        if extra:
+            self._phase2 = True
+            r2 = super().run(extra, pid, tier)
+            self._phase2 = False
+            for k in ("evaluations", "distinct_nontrivial"):
+                r[k] += r2[k]
+            r["failures"] += r2["failures"]
+            r["disagreements"] += r2["disagreements"]
+            r["decoded_names_reparsed"] = len(extra)
+        return r
+
+    def classify(self, line, impl):
+        op = line.split(" ")[1]
+        return op + ":" + (impl.split(":")[0] if op == "wname" else parse_kv(impl).get("H", impl)[:30].split("(")[0])
+
+    def nontrivial(self, line, impl):
+        return len(line.split(" ")[2]) > 2
+
+    def oracle(self, line, impl, spec, pid):
+        if impl.startswith(ABNORMAL) or "PANIC" in impl:
+            return "implementation " + impl[:60]
+        op = line.split(" ")[1]
+        if spec is None or op == "name":
+            return None
+        sp = spec.split(" ")
+        valid, canon = sp[1] == "1", sp[2]
+        if op == "text":
+            if impl == "nonutf8":
+                return None
+            d = parse_kv(impl)
+            for k in ("H", "I", "TH", "TI"):
+                v = d.get(k, "")
+                if valid and v != "ok:" + canon:
+                    return "valid name text but %s=%s (expected ok:%s)" % (k, v[:80], canon[:80])
+                if not valid and not v.startswith("err:"):
+                    return "invalid name text accepted: %s=%s" % (k, v[:80])
+            if getattr(self, "_phase2", False) and not valid:
+                return "a name returned by the decoder is not a valid text name"
+            return None
+        if op == "wname":
+            cap = int(line.split(" ")[3])
+            need = int(sp[3])
+            if impl.startswith("ok:"):
+                if not valid:
+                    return "encoder accepted a string the parsers reject: " + impl[:80]
+                m = re.match(r"ok:(\d+):([0-9a-f-]+) RT=(\S+) REST=(\S+)", impl)
+                n = int(m.group(1))
+                if n > 255 or n > cap:
+                    return "encoder wrote %d octets (cap %d)" % (n, cap)
+                if m.group(3) != "ok:%s:%d" % (canon, n):
+                    return "decode(encode(name)) = %s, expected ok:%s:%d" % (m.group(3)[:80], canon[:80], n)
+                if m.group(4) != "true":
+                    return "encoder wrote beyond the bytes it reported"
+            else:
+                if valid and cap >= need and canon != "2e" and not impl.startswith("err:"):
+                    return "unexpected " + impl[:60]
+                if valid and cap >= need and impl.startswith("err:"):
+                    return "valid name rejected by the encoder with enough room (cap %d, need %d): %s" % (cap, need, impl[:60])
+            return None
+        return None
+
+
+class NameOrd(Stream):
+    """equality / ordering / hashing coherence (C18)"""
+    name = "nameord"
+    rule = ("pairs and triples of name strings from the nametext grammar, biased to case permutations of one another, +-trailing "
+            "dot, prefixes, the root, maximum length; each pair both ways -> ==, cmp, partial_cmp, Hash (bytes fed to a recording "
+            "Hasher), the four conversions, name == &str for both types. Non-trivial: both strings parse. Distinct by pair.")
+
+    def generate(self, rng, tier, pid):
+        n = 3000 if tier == "quick" else 100000
+        out = []
+        for i in range(n):
+            a, _ = G.gen_text(rng)
+            while rng.random() < 0.5 and len(a) == 0:
+                a, _ = G.gen_text(rng)
+            r = rng.random()
+            if r < 0.35:
+                b = G.recase(rng, a)
+            elif r < 0.45:
+                b = a[:-1] if a.endswith(b".") else a + b"."
+                b = G.recase(rng, b) if rng.random() < 0.5 else b
+            elif r < 0.55:
+                b = a[:rng.randrange(0, len(a) + 1)]
+            elif r < 0.65:
+                b = a + bytes([rng.choice(G.LABEL_CHARS)])
+            else:
+                b, _ = G.gen_text(rng)
+            r2 = rng.random()
+            c = G.recase(rng, b) if r2 < 0.3 else (G.gen_text(rng)[0] if r2 < 0.7 else a + b"x")
+            for tag, (x, y) in (("ab", (a, b)), ("ba", (b, a)), ("bc", (b, c)), ("ac", (a, c)), ("aa", (a, a))):
+                out.append("o%d%s textpair %s %s" % (i, tag, G.hx(x), G.hx(y)))
+        return out
+
+    def nontrivial(self, line, impl):
+        return "EQ=" in impl
+
+    def classify(self, line, impl):
+        d = parse_kv(impl)
+        return "unparsed" if "EQ" not in d else "eq" if d["EQ"].startswith("true") else "cmp" + d.get("CMP", "?")[:2]
+
+    @staticmethod
+    def lower(h):
+        b = bytes.fromhex(h) if h != "-" else b""
+        return bytes((c + 32) if 65 <= c <= 90 else c for c in b)
+
+    def oracle(self, line, impl, spec, pid):
+        if impl.startswith(ABNORMAL) or "PANIC" in impl:
+            return "implementation " + impl[:60]
+        if impl == "nonutf8":
+            return None
+        d = parse_kv(impl)
+        a_hex, b_hex = line.split(" ")[2], line.split(" ")[3]
+        if "EQ" in d:
+            eq = d["EQ"].split(",")
+            cmp_ = d["CMP"].split(",")
+            hf = d["HF"].split(",")
+            conv = d["CONV"].split(",")
+            if len(set(eq)) != 1:
+                return "the equality impls disagree (Name, InlineName, cross): " + d["EQ"]
+            if len(set(cmp_)) != 1:
+                return "the ordering impls disagree: " + d["CMP"]
+            ta, tb = self.lower(conv[0]), self.lower(hf[2]) if False else None
+            if len(set(conv)) != 1:
+                return "conversions changed the text: " + d["CONV"][:120]
+            want_text = a_hex + ("" if a_hex.endswith("2e") else "2e")
+            if conv[0] != want_text:
+                return "parsed name text %s differs from the canonical spelling %s" % (conv[0][:60], want_text[:60])
+            la = self.lower(want_text)
+            lb = self.lower(b_hex + ("" if b_hex.endswith("2e") else "2e"))
+            want_cmp = "Eq" if la == lb else ("Lt" if la < lb else "Gt")
+            if cmp_[0] != want_cmp:
+                return "cmp = %s but the case-folded texts compare %s" % (cmp_[0], want_cmp)
+            if (eq[0] == "true") != (want_cmp == "Eq"):
+                return "== is %s but cmp is %s" % (eq[0], cmp_[0])
+            if hf[0] != hf[1] or hf[2] != hf[3]:
+                return "Name and InlineName feed different bytes to the hasher"
+            if eq[0] == "true" and hf[0] != hf[2]:
+                return "equal names hash differently"
+            if hf[0] != (la.hex() or "-"):
+                return "hash feed is not the case-folded text"
+            eqs = d.get("EQS", "-").split(",")
+            if eqs != ["-"] and (eqs[0] != eq[0] or eqs[1] != eq[0]):
+                return "name == &str is %s but parsing the string first gives %s" % (d["EQS"], eq[0])
+        else:
+            eqs = d.get("EQS", "-").split(",")
+            if eqs != ["-"] and "true" in eqs:
+                return "name == &str is true for a string that does not parse as a name: " + b_hex[:80]
+        return None
+
+
+class Wire(Stream):
+    """query bytes (hook part of C11): QueryWriter into exact-size guard-paged buffers"""
+    name = "wire"
+    rule = ("hooked QueryWriter::write with names from the nametext grammar (valid, maximum length, invalid), qtype/qclass incl. 0 and "
+            "65535, RD on/off, OPT absent or (version, payload), buffer capacity 0..300 around the exact need; output compared with the "
+            "model and with the RFC layout oracle. Non-trivial: the name is valid. Distinct by case.")
+
+    def generate(self, rng, tier, pid):
+        n = 2500 if tier == "quick" else 60000
+        out = []
+        for i in range(n):
+            s, tag = G.gen_text(rng)
+            if rng.random() < 0.5:
+                s = b".".join(G.small_label(rng) for _ in range(rng.choice([1, 2, 3])))
+            try:
+                s.decode()
+            except UnicodeDecodeError:
+                continue
+            opt = "-" if rng.random() < 0.4 else "%d:%d" % (rng.choice([0, 0, 1, 255]), rng.choice([512, 1232, 4096, 65535, 0]))
+            need = 2 + 12 + len(s) + (1 if s.endswith(b".") else 2) + 4 + (11 if opt != "-" else 0)
+            cap = max(0, rng.choice([need, need, need - 1, need + 1, need - 5, need - 12, 288, 288, 300, 0, 1, 2, 13, 14]))
+            out.append("q%d query %d %s %d %d %d %s" % (i, cap, G.hx(s), rng.choice([1, 28, 255, 0, 65535, rng.randrange(65536)]),
+                                                        rng.choice([1, 1, 3, 255, 0, 65535]), rng.randrange(2), opt))
+        return out
+
+    def nontrivial(self, line, impl):
+        return impl.startswith("ok:")
+
+    def classify(self, line, impl):
+        return impl.split("(")[0][:30] if impl.startswith("err") else impl[:2]
+
+    def oracle(self, line, impl, spec, pid):
+        if impl.startswith(ABNORMAL) or "PANIC" in impl:
+            return "implementation " + impl[:60]
+        a = line.split(" ")
+        cap, name, qt, qc, rd, opt = int(a[2]), bytes.fromhex(a[3]) if a[3] != "-" else b"", int(a[4]), int(a[5]), a[6] == "1", a[7]
+        valid = spec is None or spec.split(" ")[1] == "1"
+        if not impl.startswith("ok:"):
+            if valid and cap >= 288 and impl.startswith("err:"):
+                return "valid query refused although the buffer is large enough: " + impl[:60]
+            return None
+        if not valid:
+            return "a query for an invalid name was written instead of being refused: " + impl[:80]
+        n, wire = impl[3:].split(":")
+        wire = bytes.fromhex(wire)
+        # RFC layout, independent of the model
+        labels = [l for l in name.rstrip(b".").split(b".")] if name != b"." else []
+        qn = b"".join(bytes([len(l)]) + l for l in labels) + b"\x00"
+        body = b"\x00\x00" + (b"\x01\x00" if rd else b"\x00\x00") + b"\x00\x01\x00\x00\x00\x00" + (b"\x00\x01" if opt != "-" else b"\x00\x00")
+        body += qn + qt.to_bytes(2, "big") + qc.to_bytes(2, "big")
+        if opt != "-":
+            v, p = opt.split(":")
+            body += b"\x00\x00\x29" + int(p).to_bytes(2, "big") + b"\x00" + bytes([int(v)]) + b"\x00\x00\x00\x00"
+        want = len(body).to_bytes(2, "big") + body
+        if wire != want:
+            return "query bytes differ from the RFC layout: got %s want %s" % (wire.hex()[:160], want.hex()[:160])
+        if int(n) != len(want) or int(n) > cap:
+            return "reported length %s, expected %d (cap %d)" % (n, len(want), cap)
+        return None
+
+
+STREAMS.update({"nametext": NameText(), "nameord": NameOrd(), "wire": Wire()})
